@@ -307,8 +307,10 @@ class _rewrite_captured_vars(ast.NodeTransformer):
         # Translate the value via our usual process
         value = self.visit(node.value)
 
-        # Now, if it comes back a constant, can we do a lookup to resolve it?
-        if hasattr(value, "value") and hasattr(value.value, node.attr):
+        # Now, if it comes back a constant, can we do a lookup to resolve it? (Only a constant:
+        # other nodes - an attribute, a subscript - have a `value` field too, and that is an
+        # ast node, not a captured python object.)
+        if isinstance(value, ast.Constant) and hasattr(value.value, node.attr):
             new_value = getattr(value.value, node.attr)
             # When 3.10 is not supported, replace with EnumType
             if isinstance(value.value, Enum.__class__):
